@@ -97,34 +97,54 @@ class Classifier:
         return "B"
 
 
+def _call_sites(facts, cb):
+    """[(caller body, block, {param local: (operand, at)})] for a local closure or a crate-local helper function"""
+    out = []
+    if cb.kind == "closure":
+        callers = [facts.bodies.get(cb.root or "")]
+    else:
+        callers = [b for _, b in C02.mpc_bodies(facts)]
+    for parent in callers:
+        if parent is None:
+            continue
+        pfl = None
+        for bb, t in parent.calls():
+            if callee_name(t) != cb.id or parent.is_cleanup(bb):
+                continue
+            if cb.kind != "closure":
+                out.append((parent, bb, {i + 1: (a, (bb, None)) for i, a in enumerate(t["args"])}))
+                continue
+            pfl = pfl or Flow(facts, parent, C02.EXTRA)
+            binds = None
+            if len(t["args"]) == 2 and t["args"][1][0] != "k":
+                for di in pfl.defs_of.get(t["args"][1][1][0], []):
+                    _, db, dj = pfl.defs[di]
+                    if db >= 0 and dj is not None:
+                        rv = parent.stmts(db)[dj][2]
+                        if rv[0] == "agg" and rv[1].get("k") == "tuple":
+                            binds = {i + 2: (o, (db, dj)) for i, o in enumerate(rv[2])}
+            out.append((parent, bb, binds))
+    return out
+
+
 def _classify_per_call_site(facts, cl, cb, lv):
-    """a message built inside a local closure from the closure's parameters (`mask_and_send(value, &mask)`): the class is
+    """a message built inside a local closure or helper from its parameters (`mask_and_send(value, &mask)`): the class is
     decided at every call site with the arguments substituted; all sites must be masked"""
-    parent = facts.bodies.get(cb.root or "")
-    if parent is None:
-        return cl.classify(lv)
-    pfd = cl.flow(parent)
-    sites = [(bb, t) for bb, t in parent.calls() if callee_name(t) == cb.id and not parent.is_cleanup(bb)]
+    sites = _call_sites(facts, cb)
     if not sites:
         return cl.classify(lv)
     base = {x for x in lv if x[0] != "param"}
     params = sorted(x[1] for x in lv if x[0] == "param")
     classes = []
-    for bb, t in sites:
-        elems = None
-        if len(t["args"]) == 2 and t["args"][1][0] != "k":
-            for di in pfd.defs_of.get(t["args"][1][1][0], []):
-                _, db, dj = pfd.defs[di]
-                if db >= 0 and dj is not None:
-                    rv = parent.stmts(db)[dj][2]
-                    if rv[0] == "agg" and rv[1].get("k") == "tuple":
-                        elems = (rv[2], (db, dj))
-        if elems is None:
+    flows = {}
+    for parent, bb, binds in sites:
+        if binds is None:
             return "B"
+        pfd = flows.get(parent.id) or flows.setdefault(parent.id, cl.flow(parent))
         site_lv = set(base)
         for l in params:
-            if l - 2 < len(elems[0]):
-                site_lv |= cl.leaves(parent, pfd, elems[0][l - 2], elems[1])
+            if l in binds:
+                site_lv |= cl.leaves(parent, pfd, binds[l][0], binds[l][1])
         classes.append(cl.classify(site_lv))
     return "A" if all(c == "A" for c in classes) else classes[0] if len(set(classes)) == 1 else "B"
 
@@ -140,6 +160,7 @@ def run(facts, rep, tier):
     cl = Classifier(facts)
     table = {}
     n = 0
+    helper_of = {}
     for name, b in C02.mpc_bodies(facts):
         if "/mpc/" not in b.file:
             continue
@@ -150,12 +171,17 @@ def run(facts, rep, tier):
         fd = cl.flow(b)
         root = b.root or name
         req = REQUIRE_MASK.get(name) or REQUIRE_MASK.get(root)
+        if not req and b.kind != "closure":
+            callers = {(pb.root or pb.id) for pb, _, _ in _call_sites(facts, b)}
+            if callers and all(c_ in REQUIRE_MASK for c_ in callers):
+                req = REQUIRE_MASK[sorted(callers)[0]] + " (helper of %s)" % sorted(callers)[0].split("::")[-1]
+                helper_of.setdefault(sorted(callers)[0], []).append(name)
         for k, nb in enumerate(sorted(tr)):
             pay = tr[nb]
             lv = cl.leaves(b, fd, pay, (nb, None)) if pay is not None else set()
             # a nop created by a wrapper: the wrapper forwards its Node argument
             c = cl.classify(lv)
-            if c != "A" and b.kind == "closure" and any(k_ == "param" for k_, _ in lv):
+            if c != "A" and any(k_ == "param" for k_, _ in lv):
                 c = _classify_per_call_site(facts, cl, b, lv)
             n += 1
             table["%s#%d" % (name, k)] = {"class": c, "leaves": sorted(set(x[1].split("::")[-1] if isinstance(x[1], str) else str(x[1]) for x in lv))}
@@ -172,8 +198,10 @@ def run(facts, rep, tier):
                              "B": "share component or protocol result forwarded as is (reveal steps) - informational, not a verdict"}
     rep.analysed["send_sites_classified"] = n
     for f_, why in REQUIRE_MASK.items():
-        rep.ob("C03.M", "anchor:%s" % f_, any(k.startswith(f_) for k in table), "masking protocol %s has Send sites" % f_)
-    rep.floor("C03.M", "messages of the named masking protocols", sum(1 for k in table if any(k.startswith(f_) for f_ in REQUIRE_MASK)), 8)
+        rep.ob("C03.M", "anchor:%s" % f_, any(k.startswith(f_) or any(k.startswith(h_) for h_ in helper_of.get(f_, [])) for k in table),
+               "masking protocol %s has Send sites (its own or in helpers only it calls: %s)" % (f_, helper_of.get(f_, [])))
+    fam_ = list(REQUIRE_MASK) + [h_ for hs in helper_of.values() for h_ in hs]
+    rep.floor("C03.M", "messages of the named masking protocols", sum(1 for k in table if any(k.startswith(f_) for f_ in fam_)), 8)
 
 
 PRFS = ("graphs::Graph::prf", "graphs::Node::prf")
@@ -443,9 +471,36 @@ def reveal(facts, rep):
                          and facts.bodies.get(callee_name(t) or "") in fam[1:]]
                 rep.ob("C03.R", "no-party-no-send", not live,
                        "with an empty output-party list no Send annotation is reachable (the result stays shared)", b.loc(empties[0]))
-        # receivers
-        contains = [bb for bb, t in b.calls() if (callee_name(t) or "").endswith("::contains") and not b.is_cleanup(bb)
-                    and any(o[0] == "param" and o[1] == outp for o in fl.origins(t["args"][0], (bb, None)))]
+        # receivers.  Membership tests: output_parties.contains(&Party(x)), or a predicate helper `is_output_party(&output_parties, x)`
+        tests = []      # (block, operand that names the tested party, is it wrapped in IOStatus::Party)
+        for bb, t in b.calls():
+            if b.is_cleanup(bb):
+                continue
+            cn = callee_name(t) or ""
+            if cn.endswith("::contains") and any(o[0] == "param" and o[1] == outp for o in fl.origins(t["args"][0], (bb, None))):
+                tests.append((bb, t["args"][1], True))
+                continue
+            hb = facts.bodies.get(cn)
+            if hb is None or hb.kind == "closure" or hb.local_ty(0) != "bool":
+                continue
+            lp = [i for i, a in enumerate(t["args"]) if a[0] != "k" and any(o[0] == "param" and o[1] == outp for o in fl.origins(a, (bb, None)))]
+            if not lp:
+                continue
+            hfl = Flow(facts, hb)
+            for hbb, ht in hb.calls():
+                if not (callee_name(ht) or "").endswith("::contains") or hb.is_cleanup(hbb):
+                    continue
+                if not any(o[0] == "param" and o[1] == lp[0] + 1 for o in hfl.origins(ht["args"][0], (hbb, None))):
+                    continue
+                # which helper parameter is wrapped into Party(..)
+                for o in hfl.origins(ht["args"][1], (hbb, None)):
+                    if o[0] == "agg" and o[3].endswith("IOStatus::Party"):
+                        x = hb.stmts(o[1])[o[2]][2][2][0]
+                        ps = {d[1] for d in hfl.leaf_deps(x, (o[1], o[2])) if d[0] == "param"}
+                        if len(ps) == 1 and ps.pop() - 1 < len(t["args"]):
+                            pidx = [d[1] for d in hfl.leaf_deps(x, (o[1], o[2])) if d[0] == "param"][0] - 1
+                            tests.append((bb, t["args"][pidx], False))
+        contains = [x[0] for x in tests]
         for k, (bb, recv, aggs) in enumerate(sites):
             agg = aggs[0]
             rv = b.stmts(agg[1])[agg[2]][2]
@@ -460,13 +515,12 @@ def reveal(facts, rep):
             if guarded:
                 # the membership test is about the value that becomes the receiver
                 same = False
-                for c in contains:
-                    a = b.term(c)["args"][1]
+                for c, a, wrapped in tests:
                     cd = {d for d in fl.leaf_deps(a, (c, None)) if d[0] not in ("const", "agg")}
                     if cd and cd == {d for d in pd}:
                         same = True
                     # aggregate IOStatus::Party(x): compare x
-                    for o in fl.origins(a, (c, None)):
+                    for o in (fl.origins(a, (c, None)) if wrapped else ()):
                         if o[0] == "agg" and o[3].endswith("IOStatus::Party"):
                             x = b.stmts(o[1])[o[2]][2][2][0]
                             xd = {d for d in fl.leaf_deps(x, (o[1], o[2])) if d[0] != "const"}
